@@ -10,7 +10,7 @@ def signature(msg, case_lines):
     kind = m.group(1) if m else "?"
     hdr = case_lines[0] if case_lines else ""
     d = re.search(r"dual=(\d)", msg.split(" ev=[")[0]) or re.search(r"dual=(\d)", hdr)
-    if kind == "gray-roundtrip" or kind.startswith("array-"):
+    if kind == "gray-roundtrip" or kind.startswith("array-") or kind.startswith("trans-"):
         return "kind:" + kind
     return "kind:%s;dual:%s" % (kind, d.group(1) if d else "?")
 
@@ -23,19 +23,20 @@ vlib.standard_check({
     "exe": "gv_c15",
     "harness": "c15",
     # [ncases, eventsPerCase]
-    "streams": {"quick": [[300, 2000], [1500, 150], [300, 500, "stream"], [6, 6000, "deep"], [16, 400, "gray"], [300, 600, "array"]],
-                "thorough": [[2000, 4000], [250, 30000], [12000, 200], [3000, 1000, "stream"], [150, 12000, "deep"], [64, 20000, "gray"], [3000, 800, "array"]]},
-    "search": [[1500, 2000], [6000, 300], [2000, 600, "stream"], [30, 8000, "deep"], [16, 2000, "gray"], [2000, 800, "array"]],
+    "streams": {"quick": [[300, 2000], [1500, 150], [300, 500, "stream"], [6, 6000, "deep"], [16, 400, "gray"], [300, 600, "array"], [250, 600, "trans"]],
+                "thorough": [[1800, 4000], [250, 30000], [12000, 200], [3000, 1000, "stream"], [150, 12000, "deep"], [64, 20000, "gray"], [3000, 800, "array"], [2000, 800, "trans"]]},
+    "search": [[1500, 2000], [6000, 300], [2000, 600, "stream"], [30, 8000, "deep"], [16, 2000, "gray"], [2000, 800, "array"], [2000, 800, "trans"]],
     "signature": signature,
     "eval_key": "ops",
     "nontrivial": lambda t: sum(t.get("cov", {}).get(k, 0) for k in ("accepted", "yielded", "push_attempt_at_capacity", "pop_attempt_at_none",
                                                                      "stream_accepted", "stream_yielded", "stream_backpressure_at_capacity", "gray_values",
-                                                                     "array_accepted", "array_yielded", "array_push_attempt_at_capacity", "array_pop_attempt_at_none")),
+                                                                     "array_accepted", "array_yielded", "array_push_attempt_at_capacity", "array_pop_attempt_at_none",
+                                                                     "trans_accepted", "trans_yielded", "trans_push_rollbacks", "trans_pop_rollbacks", "trans_push_commits", "trans_pop_commits")),
     "extra_cov": lambda t: {"boundary_coverage": t.get("cov", {}), "configurations": t.get("hist", {})},
     "rule": "configurations: depth 2^k (k=0..6, minDepth in (2^(k-1),2^k]), payload width in {1..64}, latency request in {DontCare, Specific 1..7, AtLeast 0..6, AtMost 1..8}, "
             "single clock or dual clock with push:pop frequency ratio from 21 rationals (1:16 .. 16:1, 100:133 ...); schedules switch between random / burst-to-full / drain-to-empty / "
             "push+pop simultaneously / polite / push-heavy / pop-heavy / idle phases long enough to sit at both boundaries and wrap the pointers; payload = running counter, "
-            "sometimes random or partly undefined; almost-full/-empty levels constant or varying per edge. A `deep` stream builds only dual-clock FIFOs of depth 128/256/512 (8..10 bit pointers through the gray-code synchronisers, unrelated clock ratios such as 100:77, enough events to pass 2^8/2^9 and wrap); a `gray` stream evaluates scl::grayEncode/grayDecode/round trip at every width 1..16 (exhaustive to 12 bits, boundary + random above) against C15/Gray.lean. An `array` stream drives scl::FifoArray (2/4/8 FIFOs x depth 2..16, at most 64 words) with selectors that differ, change every cycle, rest on different FIFOs (fill one to capacity while the pop selector rests on another), chase the fullest / emptiest FIFO; one abstract queue per FIFO. A further stream drives scl::strm::fifo (ready/valid, latency 0 = fall-through .. 4) with protocol-conforming sources. evaluations = clock-edge events replayed on model AND checked against the queue spec; "
+            "sometimes random or partly undefined; almost-full/-empty levels constant or varying per edge. A `deep` stream builds only dual-clock FIFOs of depth 128/256/512 (8..10 bit pointers through the gray-code synchronisers, unrelated clock ratios such as 100:77, enough events to pass 2^8/2^9 and wrap); a `gray` stream evaluates scl::grayEncode/grayDecode/round trip at every width 1..16 (exhaustive to 12 bits, boundary + random above) against C15/Gray.lean. An `array` stream drives scl::FifoArray (2/4/8 FIFOs x depth 2..16, at most 64 words) with selectors that differ, change every cycle, rest on different FIFOs (fill one to capacity while the pop selector rests on another), chase the fullest / emptiest FIFO; one abstract queue per FIFO. A `trans` stream drives scl::TransactionalFifo (single clock, depth 1..32, latency 1..5) with push/commitPush(cutoff)/rollbackPush and pop/commitPop/rollbackPop strobes, including deliberately simultaneous pop+rollbackPop, push+rollbackPush and commit+rollback, checked against a queue with tentative suffix/prefix. A further stream drives scl::strm::fifo (ready/valid, latency 0 = fall-through .. 4) with protocol-conforming sources. evaluations = clock-edge events replayed on model AND checked against the queue spec; "
             "non-trivial = accepted + yielded items + refused attempts at capacity / at none",
     "trusted_base": ["Lean 4.33 kernel", "axioms: propext, Classical.choice, Quot.sound only (audited per theorem)",
                      "statements in Properties/C15.lean and the trace-level definitions accepted/yielded/fill/queue/lastAf/lastAe (C15/Spec.lean)",
@@ -48,7 +49,7 @@ vlib.standard_check({
                   "differential simulation (every interface value before every clock edge) and the queue specification is evaluated directly on the implementation's trace.",
     "assumptions": ["strm::fifo (ready/valid wrapper incl. fall-through, streamFifo.h) is modelled and checked by correspondence + queue spec on its trace only; the theorems are about the inner Fifo",
                     "vendor FIFO primitives (scl/arch/xilinx/FifoPattern.cpp) and technology-mapped memories are outside the model (no target device is set in the harness)",
-                    "TransactionalFifo (commit/rollback) and storeForwardFifo are not covered; FifoArray with more than 64 data words (needs a user-supplied retimable output register) is not exercised",
+                    "dual-clock TransactionalFifo (generateCDCReqAck) and storeForwardFifo are not covered; FifoArray with more than 64 data words (needs a user-supplied retimable output register) is not exercised",
                     "requested latency 0 (Specific(0)/AtMost(0)) is excluded: Fifo::generate then loops over Range(0-1) registers",
                     "requests are held low while a reset is asserted; metastability is outside gatery's simulator and outside the model"],
 })
